@@ -9,6 +9,7 @@
 (*   upd    one UpdateExportOptions / UpdateTuningOptions /                *)
 (*          UpdatePolicyOptions call: the update (classes), whether it was *)
 (*          rejected, GetExportOptions() after it (classes), the sizes in  *)
+(*          rejected or did not return at all (watchdog), GetExportOptions  *)
 (*          force inside the attribute cache and the worker pool, and the  *)
 (*          outcome of a LOOKUP, a READ of 16 KiB and a WRITE of 100 bytes *)
 (* ideal level (verdict): ConfigOps!Verdict on (previous logged cfg,       *)
@@ -86,9 +87,12 @@ Step ==
          io == IoV
          fc == ForceV
          model == IF Cur.ev = "reset" THEN ApplyImpl(InitCfg, U, {"F16", "F16b", "F16c", "F16d"})   \* New() defaults
-                  ELSE ApplyImpl(Pre, U, Fixed) IN
-     /\ bad' = bad \cup Tag(v.bad \cup io.bad \cup fc.bad)
-     /\ dev' = dev \cup DevTag(v.dev \cup io.dev \cup fc.dev)
+                  ELSE ApplyImpl(Pre, U, Fixed)
+         \* an update call that never returned (watchdog): whatever it was about to do, the server is no
+         \* longer reconfigurable, and a rejected update before it did not leave things as they were
+         hung == IF Cur.hung THEN {"an update call did not return: the server can no longer be reconfigured"} ELSE {} IN
+     /\ bad' = bad \cup Tag((IF Cur.hung THEN {} ELSE v.bad) \cup io.bad \cup fc.bad \cup hung)
+     /\ dev' = dev \cup DevTag((IF Cur.hung THEN {} ELSE v.dev) \cup io.dev \cup fc.dev)
      /\ drift' = drift \cup Tag((IF model # Post THEN {"configuration after the call differs from the transcribed update"} ELSE {})
                                 \cup (IF Cur.ev = "upd" /\ Cur.rejected # Rejects(Pre, U) THEN {"rejection differs from the transcribed Squash rule"} ELSE {}))
      /\ stats' = [stats EXCEPT !.hist = @ + (IF Cur.ev = "reset" THEN 1 ELSE 0),
